@@ -164,3 +164,15 @@ Proof.
     + apply sort_seg_in. apply find_some_in; auto.
   - apply find_none_iff. rewrite sort_seg_keys_in. apply find_none_iff; auto.
 Qed.
+
+(* list helpers missing from the 8.16 standard library *)
+Lemma In_firstn_in {A} n (l : list A) x : In x (firstn n l) -> In x l.
+Proof.
+  revert l; induction n as [|n IH]; intros [|a l]; simpl; auto; try tauto.
+  intros [H|H]; auto.
+Qed.
+
+Lemma In_skipn_in {A} n (l : list A) x : In x (skipn n l) -> In x l.
+Proof.
+  revert l; induction n as [|n IH]; intros [|a l]; simpl; auto.
+Qed.
